@@ -519,6 +519,13 @@ def call_arguments_in_order(ctx, rid, core):
             if s1 and s2:
                 verdict = (s1 == s2 and len(s1) == 1 and not fronts)
                 detail = "spread elements go to %s, plain arguments to %s%s" % (sorted(s1), sorted(s2), "" if verdict else ": the arguments no longer arrive in the order they were written")
+    # the flattening is unconditional: a test on where the spreads sit (`if last is a spread { flatten } else { as they are }`) hands
+    # unexpanded spread values to the callee in the shapes the test does not expect
+    for i_ in H.walk(call_arm["body"]):
+        if H.kind(i_) == "If" and any(H.kind(x) == "MethodCall" and x["name"] in ("is_spread", "last", "first", "any", "all", "position") for x in H.walk(i_["cond"])):
+            has_loop = any(H.kind(x) == "For" and any(H.kind(m_) == "Match" and any(H.last(v_) == "Spread" for a_ in m_["arms"] for v_ in H.pat_variants(a_["pat"])) for m_ in H.walk(x["body"])) for x in H.walk(i_["then"]))
+            if has_loop and i_.get("else") is not None:
+                verdict, detail = False, "the loop that expands spread arguments runs only under a test (%s); otherwise the evaluated arguments are handed over as they are" % H.loc(i_["cond"])
     ctx.inst(rid, "Call#arguments-in-order", verdict, detail, H.loc(call_arm["body"]))
 
 
